@@ -339,10 +339,24 @@ func numInterval(v ssa.Value, b *ssa.BasicBlock, depth int) fiv {
 		if !isK || !sameNumeric(x, v) {
 			continue
 		}
+		isF32 := false
+		if bt, ok := v.Type().Underlying().(*types.Basic); ok && bt.Kind() == types.Float32 {
+			isF32 = true
+		}
 		switch op {
-		case token.GEQ, token.GTR:
+		case token.GEQ:
 			tighten(fiv{k, math.Inf(1)})
-		case token.LEQ, token.LSS:
+		case token.GTR:
+			if isF32 {
+				k = float64(math.Nextafter32(float32(k), float32(math.Inf(1))))
+			}
+			tighten(fiv{k, math.Inf(1)})
+		case token.LEQ:
+			tighten(fiv{math.Inf(-1), k})
+		case token.LSS:
+			if isF32 {
+				k = float64(math.Nextafter32(float32(k), float32(math.Inf(-1))))
+			}
 			tighten(fiv{math.Inf(-1), k})
 		case token.EQL:
 			tighten(fiv{k, k})
